@@ -32,6 +32,10 @@ CLAIMED = {
             "Generated-input search over (program, layout edit) pairs; the edited program's records must equal the base records with rows after the edit shifted by the inserted line count (multiset comparison, plain and -i). Exploration.",
             "ti is compared with itself on two different inputs; the relation is the property's own statement. Crashing/hanging runs are discarded and counted (C01/C02).",
             "DESIGN.md §4 C06"),
+    "C11": ("property-based testing (Hypothesis: grammar-generated and corpus hosts x generated/hand-written independent fragments x insertion points); metamorphic relation (insertion of independent code leaves other records unchanged modulo row shift)",
+            "Generated-input search over (host, fragment, boundary) triples; records outside the fragment's rows, shifted back, must equal the host's records (multisets, plain and -i). Exploration.",
+            "Independence precondition decided on identifier pools (fragment identifiers carry a reserved prefix). Crashing/hanging runs are discarded and counted.",
+            "DESIGN.md §4 C11"),
 }
 
 PENDING_REASON = "check not built yet in this round (planned in DESIGN.md §3.11); no claim is made"
